@@ -369,8 +369,10 @@ def do_replay(mod, prop, path, as_json):
             rng = random.Random(core.derive_seed(rr["batch_seed"], prop, i))
             for case in mod.cases(rng, rr["tier"]):
                 o = mod.execute(case)
-                if i == rr["index"] and o.violation is not None and (out.violation is None):
-                    out = o
+                if i == rr["index"] and o.violation is not None:
+                    if out.violation is None or (want is not None and want.same_class(o.violation)
+                                                 and not want.same_class(out.violation)):
+                        out = o
     elif want is not None and want.kind == "no_termination":
         out = budgeted_execute(mod, rec["case"])
     else:
@@ -432,8 +434,8 @@ def handle_violation(mod, prop, index, seed, case, vjson, repo, do_min=True, tie
             path = _range_replay(prop, tier, batch_seed, chunk_start, index, violation, repo, seed)
             if path is not None:
                 return path, violation
-        _harness_error(f"violation of run {index} (seed {seed}) reproduces neither alone nor after the earlier runs "
-                       f"of its chunk in a fresh process: {violation!r} vs {res}")
+        return None, (f"violation of run {index} (seed {seed}) reproduces neither alone nor after the earlier runs "
+                      f"of its chunk in a fresh process: {violation!r} vs {res}")
     out = mod.execute(copy.deepcopy(case))
     case2 = case
     if hasattr(mod, "freeze") and violation.same_class(out.violation):
@@ -458,7 +460,7 @@ def handle_violation(mod, prop, index, seed, case, vjson, repo, do_min=True, tie
     path = write_replay(prop, seed, case, violation, res.get("digest", ""),
                         note=f"unminimised case of run index {index} (the minimised form did not reproduce in a fresh process)")
     if not replay_in_fresh_process(prop, path, repo).get("same_class"):
-        _harness_error(f"replay file {path} does not reproduce in a fresh process")
+        return None, f"replay file {path} does not reproduce in a fresh process"
     return path, violation
 
 
@@ -538,6 +540,7 @@ def run_batch(mod, prop, tier, batch_seed, repo, workers, runs_override=None, wa
     # --- violations ---------------------------------------------------------
     seen_classes = {}
     suppressed_known = {}
+    unreproducible = []
     for index, seed, case, vjson, chunk_start in sorted(total["violations"], key=lambda v: (v[0], json.dumps(v[2], sort_keys=True))):
         v = core.Violation.from_json(vjson)
         matched = [e for e in known if core.finding_matches(e, v)]
@@ -554,9 +557,21 @@ def run_batch(mod, prop, tier, batch_seed, repo, workers, runs_override=None, wa
         seen_classes[sig] = 1
         path, final_v = handle_violation(mod, prop, index, seed, case, vjson, repo, tier=tier,
                                          batch_seed=batch_seed, chunk_start=chunk_start)
+        if path is None:
+            unreproducible.append(final_v)
+            continue
         print(f"violation: {final_v.kind} {json.dumps(final_v.key, sort_keys=True)} :: {final_v.detail}", flush=True)
         print(f"VIOLATION property={prop} replay={path}", flush=True)
         violations_out.append(path)
+
+    # A violation class that cannot be reproduced from a replay file is never reported as a
+    # violation.  If nothing else was confirmed the batch is a harness error (not exit 0);
+    # next to confirmed violations it is only logged.
+    for msg in unreproducible:
+        print(f"UNREPRODUCIBLE (not reported as a violation): {msg}"[:600], flush=True)
+    if unreproducible and not violations_out:
+        _harness_error("a violation was observed in a worker but no replay file reproduces it (state outside the "
+                       "simulator's control, e.g. absolute addresses)")
 
     # the same property under other PYTHONHASHSEED values (a recorded
     # configuration: string hashing changes set/dict iteration orders)
